@@ -1001,12 +1001,18 @@ inline void DnsTransport::processResponse(const std::uint8_t *data, std::size_t 
       {
         std::lock_guard<std::mutex> lock(queriesMutex_);
         auto it = pendingQueries_.find(key);
-        if (it != pendingQueries_.end() && !it->second->tcpFallback)
+        if (it != pendingQueries_.end())
         {
-          iora::core::Logger::debug("Initiating TCP fallback for truncated response, query ID=" +
-                                    std::to_string(result.header.id));
-          it->second->tcpFallback = true;
-          sendTcpQuery(it->second);
+          if (!it->second->tcpFallback)
+          {
+            iora::core::Logger::debug("Initiating TCP fallback for truncated response, query ID=" +
+                                      std::to_string(result.header.id));
+            it->second->tcpFallback = true;
+            sendTcpQuery(it->second);
+          }
+          // else: a duplicate of the truncated UDP answer while the TCP fallback is
+          // already under way - it must not complete the query with the empty,
+          // truncated result.
           return; // Don't complete the query yet
         }
       }
